@@ -120,10 +120,10 @@ func (c *counter) cachedReportTo(r *vCachedReporter) {
 	r.calls = append(r.calls, vCachedCall{kind: "counter", i: delta})
 }
 
-func VerifC01Kernel()      { c01Kernel(1, 2, 2, 1, 2, false) }
-func VerifC01KernelWide()  { c01Kernel(2, 1, 2, 1, 3, false) }
-func VerifC01KernelTwice() { c01Kernel(1, 2, 2, 2, 2, false) }
-func VerifC01Kernel3Pass() { c01Kernel(1, 1, 3, 1, 3, false) }
+func VerifC01Kernel()       { c01Kernel(1, 2, 2, 1, 2, false) }
+func VerifC01KernelWide()   { c01Kernel(2, 1, 2, 1, 3, false) }
+func VerifC01KernelTwice()  { c01Kernel(1, 2, 2, 2, 2, false) }
+func VerifC01Kernel3Pass()  { c01Kernel(1, 1, 3, 1, 3, false) }
 func VerifC01KernelCached() { c01Kernel(1, 2, 2, 1, 2, true) }
 
 // c01Late: a report pass that starts after the increments have stopped runs concurrently
@@ -257,3 +257,8 @@ func VerifC01ScopePass() {
 	}
 	verifrt.Reach("c01.pass.end")
 }
+
+// VerifC01SubscopeClose: conservation across a subscope Close racing a report pass
+// (the registry decides when a closed scope's counters are reported for the last time).
+func VerifC01SubscopeClose() { c07Prefix = "c01.registry"; c07Cycle(1, 1, 2, 2) }
+func VerifC01SubscopeCycle() { c07Prefix = "c01.registry"; c07Cycle(1, 1, 2, 0) }
